@@ -202,8 +202,72 @@ def rule_c(ctx):
             ctx.check(D.has_field(a, 'remote') and D.has_field(o, 'dst_cid'), 'c', 'retry_token_binds_address_and_odcid', rt, c.where(), 'address: incoming.addresses.remote, orig_dst_cid: header.dst_cid', 'Retry token payload no longer binds the client address and original DCID')
 
 
+def _is_int(x, n):
+    return x[0] == 'const' and x[1] == 'int' and str(x[2]).split('_')[0] == str(n)
+
+
+def _self_field(x, name):
+    """exactly self.<name> (a projection of the receiver, nothing applied)"""
+    return x[0] == 'field' and x[2] == name and x[1][0] == 'param' and x[1][1] == 1
+
+
+def _other_packet_seen(o, a, b):
+    """the relation says that a packet other than the one being processed was authenticated before: the counter
+    self.total_authed_packets (which already counts this packet) exceeds 1 — `1 < n`, `2 <= n`, or `n != 1`"""
+    n = lambda x: _self_field(x, 'total_authed_packets')
+    return (o == 'Lt' and _is_int(a, 1) and n(b)) or (o == 'Le' and _is_int(a, 2) and n(b)) or (o == 'Ne' and ((_is_int(a, 1) and n(b)) or (_is_int(b, 1) and n(a))))
+
+
+def rule_d_retry(ctx):
+    """client side: "follows a Retry only if its integrity tag verifies and no other server packet has been processed".
+    The Retry arm of process_decrypted_packet changes state (records retry_src_cid, switches the remote CID and the Initial
+    keys, re-queues 0-RTT data, takes the token).  Every such site must lie behind (i) a guard on the per-connection packet
+    counter itself saying that this Retry is the first authenticated packet — a condition on any other state (for
+    instance "no Retry followed yet") does not cover a server Initial processed earlier — and (ii) the pass edge of
+    is_valid_retry evaluated against the currently used remote CID."""
+    F = ctx.facts
+    pdp = ctx.pfn('Connection::process_decrypted_packet')
+    valid = pdp.calls_to('Session::is_valid_retry')
+    ctx.floor('d', 'retry_tag_check_sites', len(valid), 1)
+    st = [w for w in field_writes(F, 'Connection', 'retry_src_cid', crate='quinn_proto') if F.root_of(w.body).id == pdp.id and w.kind == 'assign']
+    ctx.floor('d', 'retry_state_change_sites', len(st), 1)
+    prot = [w.bb for w in st]
+    # the Retry arm's other effects: the calls that only the arm makes, recognised by being dominated by the tag check
+    for pat in ('CidQueue::update_initial_cid', 'Session::initial_keys', 'StreamsState::retransmit_all_for_0rtt', 'Connection::discard_space'):
+        prot += [c.bb for c in pdp.calls_to(pat) if any(pdp.dominates(v.bb, c.bb) for v in valid)]
+    prot = sorted(set(prot))
+    ctx.floor('d', 'retry_effect_sites', len(prot), 3)
+    guard_protects(ctx, 'd', 'retry_only_before_other_server_packets', pdp, _other_packet_seen, prot, what='self.total_authed_packets > 1 (this Retry is not the first authenticated packet)')
+    for c in valid:
+        ok, found = True, False
+        for br in branches(F, pdp):
+            inner, neg = peel_not(br.desc)
+            if is_site(inner, c):
+                found = True
+                t_bad = br.target(1 if neg else 0)
+                ok = ok and all(p not in pdp.reachable_from(t_bad, avoid=[br.bb]) for p in prot) and all(pdp.dominates(br.bb, p) for p in prot)
+        ctx.check(ok and found, 'd', 'retry_needs_valid_integrity_tag', pdp, c.where(), 'the is_valid_retry == false edge of a dominating branch reaches no Retry state change',
+                  'the Retry state changes are reachable without a valid integrity tag (the verdict is not branched on directly, or its false edge reaches them)')
+        cid = arg_desc(F, c, 1)
+        # the tag covers the DCID of the client's first Initial; behind the first-packet gate that CID is, equivalently,
+        # self.rem_cids.active(), self.initial_dst_cid or self.orig_rem_cid — and nothing taken from the Retry packet itself
+        ok = (cid[0] == 'call' and cid[1] == 'CidQueue::active' and len(cid[3]) == 1 and _self_field(cid[3][0], 'rem_cids')) or _self_field(cid, 'initial_dst_cid') or _self_field(cid, 'orig_rem_cid')
+        ctx.check(ok, 'd', 'retry_tag_bound_to_original_dcid', pdp, c.where(), D.render(cid)[:80],
+                  'the Retry integrity tag is not verified against the destination CID the client chose for its first Initial (self.rem_cids.active() / initial_dst_cid / orig_rem_cid): ' + D.render(cid)[:120])
+    # the counter means "packets authenticated so far, this one included": +1 on every path through on_packet_authenticated,
+    # written nowhere else (handle_packet -> on_packet_authenticated before process_decrypted_packet is c/every_processed_packet_is_counted)
+    opa = ctx.pfn('Connection::on_packet_authenticated')
+    inc = [(w, v) for w, v in store_values(ctx, 'Connection', 'total_authed_packets', in_fn=opa)]
+    ok = bool(inc) and all(v[0] == 'bin' and v[1] == 'Add' and ((_is_int(v[3], 1) and _self_field(v[2], 'total_authed_packets')) or (_is_int(v[2], 1) and _self_field(v[3], 'total_authed_packets'))) for w, v in inc)
+    ok = ok and all(path_avoiding(opa, [0], opa.return_blocks(), {w.bb}) is None for w, v in inc)
+    ctx.check(ok, 'd', 'retry_gate_counter_counts_every_packet', opa, opa.where(), 'total_authed_packets += 1 on every path through on_packet_authenticated',
+              'on_packet_authenticated no longer counts every authenticated packet by exactly one: the `total_authed_packets > 1` Retry gate then opens late (or never closes)')
+    who_may_write(ctx, 'd', 'retry_gate_counter_writers', 'Connection', 'total_authed_packets', ['Connection::on_packet_authenticated', 'Connection::new'], floor=1)
+
+
 def rule_d(ctx):
     F = ctx.facts
+    rule_d_retry(ctx)
     hpp = ctx.pfn('Connection::handle_peer_params')
     sp = [c.bb for c in hpp.calls_to('Connection::set_peer_params')]
     ctx.floor('d', 'set_peer_params_site', len(sp), 1)
@@ -252,9 +316,138 @@ def rule_e(ctx):
     ctx.check(all(y[0] == 'agg' and y[2].endswith('None') for y in rd), 'e', 'none_store_returns_none', nt, nt.where(), 'None', 'NoneTokenStore::take returns a token')
 
 
+def _typed_param(body, ty):
+    """the unique parameter of `body` whose declared type is `ty` (position and name free), as a descriptor test"""
+    idx = [i for i in range(1, body.argc + 1) if body.locals[i][0] == ty]
+    return (lambda x: x[0] == 'param' and x[1] == idx[0]) if len(idx) == 1 else None
+
+
+def _quotients(F, root):
+    """(body, where, dividend, divisor) of every division evaluated in `root` or its closures: the `/` operator and the
+    div-family methods (checked_div, div_euclid, div_duration_f64, <_ as Div>::div ..)"""
+    out = []
+    for x in F.family(root):
+        d = describer(F, x)
+        for i, j, pl, rv, line in x.assigns():
+            if rv[0] == 'bin' and rv[1] == 'Div':
+                v = d.rvalue(rv, i, j, 0)
+                out.append((x, '%s:%d' % (x.file, line), v[2], v[3]))
+        for c in x.calls():
+            if is_noise(c):
+                continue
+            m = c.f.rsplit('::', 1)[-1].split('<')[0]
+            if m == 'div' or m.startswith('div_') or m.endswith('_div') or '_div_' in m:
+                a = [arg_desc(F, c, k) for k in range(len(c.args))]
+                if len(a) >= 2:
+                    out.append((x, c.where(), a[0], a[1]))
+    return out
+
+
+def _nanos_of(x):
+    """x is exactly Duration::as_nanos(<d>) — the one integer reading of a Duration that loses nothing (as_secs / as_millis
+    / as_micros truncate, the float forms round) — returns <d>"""
+    if x[0] == 'call' and x[1] == 'Duration::as_nanos' and len(x[3]) == 1:
+        return x[3][0]
+    return None
+
+
+def _applied_to(F, root, body):
+    """for a closure `body` of `root`: (receiver descriptor, captured operands) of the Result/Option combinator call in
+    root that applies it to the success value; None when it is used in any other way"""
+    for c in root.calls():
+        if body in closure_args(F, c):
+            if not any(c.is_(n) for n in ('Result::map', 'Result::and_then', 'Result::map_or', 'Option::map', 'Option::and_then')):
+                return None
+            recv = arg_desc(F, c, 0)
+            while recv[0] == 'call' and recv[1] == 'Result::ok' and len(recv[3]) == 1:
+                recv = recv[3][0]
+            caps = [y[3] for k in range(len(c.args)) for y in walk(arg_desc(F, c, k)) if y[0] == 'agg' and y[1] == 'closure' and y[2] == body.canon]
+            return recv, (caps[0] if caps else ())
+    return None
+
+
+def rule_f_period(ctx, bl):
+    """BloomTokenLog keeps a token in the filter of the period in which it EXPIRES; the window moves by exactly `lifetime`
+    (`period_1_start += lifetime`) or restarts at this token's expiry.  "Not accepted before" over histories needs every
+    presentation of one token to compute the same period, i.e. the index is the exact quotient
+        (issued + lifetime - period_1_start) / lifetime
+    with the very quantity the window advances by as divisor.  Structural carrier: the (only) division of the function has
+    both operands read at full resolution (Duration::as_nanos, nothing applied), the divisor's Duration IS the lifetime
+    parameter, the dividend's Duration IS the Ok value of duration_since(issued + lifetime, state.period_1_start); and
+    every store to period_1_start adds exactly the lifetime parameter or stores issued + lifetime."""
+    F = ctx.facts
+    is_life = _typed_param(bl, 'std::time::Duration')
+    is_iss = _typed_param(bl, 'std::time::SystemTime')
+    if is_life is None or is_iss is None:
+        # fail closed: the anchor (one SystemTime and one Duration parameter) is gone
+        ctx.bad('f', 'period_index_is_exact_quotient', bl, bl.where(), 'cannot identify the issue-time / lifetime parameters of BloomTokenLog::check_and_insert by type')
+        return
+
+    def expiry(x):
+        return x[0] == 'call' and x[1] == '<SystemTime as Add>::add' and len(x[3]) == 2 and is_iss(x[3][0]) and is_life(x[3][1])
+
+    def window_start(x):
+        return x[0] == 'field' and x[2] == 'period_1_start'
+
+    def since_start(x):
+        return x[0] == 'call' and x[1] == 'SystemTime::duration_since' and len(x[3]) == 2 and expiry(x[3][0]) and window_start(x[3][1])
+
+    qs = _quotients(F, bl)
+    ctx.floor('f', 'period_index_divisions', len(qs), 1)
+    for body, where, a, b in qs:
+        why = []
+        da, db = _nanos_of(a), _nanos_of(b)
+        if da is None or db is None:
+            why.append('an operand is not a plain Duration::as_nanos(..) reading (%s / %s): a truncated or rounded unit makes the index disagree with the window, which moves by the full lifetime' % (D.render(a)[:60], D.render(b)[:60]))
+        else:
+            app = _applied_to(F, bl, body) if body.id != bl.id else None
+            if body.id != bl.id and app is None:
+                why.append('the closure computing the quotient is not applied to the Ok value of a Result')
+            # divisor: the lifetime parameter itself (directly, or captured by the closure)
+            if db[0] == 'upvar' and app is not None:
+                caps = app[1]
+                hit = [y for y in caps if is_life(y)]
+                if not (hit and (len(caps) == 1 or db[1] == hit[0][2])):
+                    why.append('the divisor is not the lifetime parameter (captured %s)' % D.render(db))
+            elif not is_life(db):
+                why.append('the divisor is not the lifetime parameter: ' + D.render(db)[:60])
+            # dividend: Ok(duration_since(issued + lifetime, period_1_start))
+            if body.id != bl.id and app is not None:
+                if not (da[0] == 'param' and da[1] == 2 and since_start(app[0])):
+                    why.append('the dividend is not the time from period_1_start to issued + lifetime: %s applied to %s' % (D.render(da)[:40], D.render(app[0])[:100]))
+            elif body.id == bl.id:
+                y = da
+                if y[0] == 'field' and y[2] == '0' and y[1][0] == 'variant' and y[1][2] == 'Ok':
+                    y = y[1][1]
+                else:
+                    y = ('none',)
+                if not since_start(y):
+                    why.append('the dividend is not the time from period_1_start to issued + lifetime: ' + D.render(da)[:100])
+        ctx.check(not why, 'f', 'period_index_is_exact_quotient', bl, where, 'as_nanos(duration_since(issued + lifetime, period_1_start)) / as_nanos(lifetime)',
+                  'the token-log period index is not the exact quotient (expiry - period_1_start) / lifetime; ' + '; '.join(why))
+    # the window and the divisor agree: period_1_start only ever moves by the lifetime parameter or to this token's expiry
+    n = 0
+    for w in field_writes(F, 'bloom_token_log::State', 'period_1_start', crate='quinn_proto', include_borrows=True):
+        if F.root_of(w.body).id != bl.id:
+            continue
+        if w.kind == 'mutborrow' and w.call is not None and is_noise(w.call):
+            continue
+        n += 1
+        ok = False
+        if w.kind == 'mutborrow' and w.call is not None and w.call.is_('<SystemTime as AddAssign>::add_assign'):
+            ok = w.body.id == bl.id and is_life(arg_desc(F, w.call, 1)) and window_start(arg_desc(F, w.call, 0))
+        elif w.kind == 'assign' and w.rv and w.rv[0] != 'sd' and w.body.id == bl.id:
+            v = describer(F, bl).rvalue(w.rv, w.bb, w.idx, 0)
+            ok = expiry(v) or (v[0] == 'call' and v[1] == '<SystemTime as Add>::add' and len(v[3]) == 2 and window_start(v[3][0]) and is_life(v[3][1]))
+        ctx.check(ok, 'f', 'period_window_moves_by_lifetime', bl, w.where(), 'period_1_start += lifetime | period_1_start = issued + lifetime',
+                  'period_1_start is moved by something other than the lifetime parameter / set to something other than issued + lifetime: the period index (a quotient by the full lifetime) no longer matches the window')
+    ctx.floor('f', 'period_window_stores', n, 2)
+
+
 def rule_f(ctx):
     F = ctx.facts
     bl = ctx.pfn('<BloomTokenLog as TokenLog>::check_and_insert')
+    rule_f_period(ctx, bl)
     fc = bl.calls_to('Filter::check_and_insert')
     ok = bool(fc)
     if ok:
